@@ -8,6 +8,16 @@ CLAIMED = {
    text="Seeded search over writer histories (writer kind x option swarm x Write/Flush batching) executed on simulated storage; every row read back through five read paths is compared with the model (the slice handed to the writer). Sampling of histories/configurations, not a proof; the value dimension is seeded generation over four Go struct types.",
    note="Trusts Schema.Deconstruct only as a convenience for row-level comparison (typed values are also compared directly). Library built by go1.26.8 with tags verif,debug (deterministic pool replaces sync.Pool).",
    ref="DESIGN.md §4 C01"),
+ "C13": dict(level="fault_enumeration", engine="E2 fault enumerator",
+   technique="deterministic simulation with stored-byte fault injection: page bodies located from raw bytes, every sampled (byte, bit/burst) x access path re-executed on a simulated ReaderAt, oracle = ErrCorrupted and no wrong row",
+   text="For each seeded file the harness enumerates bit flips and short bursts inside page bodies (data and dictionary pages) and drives eight access paths (sequential rows, Reader, typed reader, pages, seek into the page, seek past and back, ReadDictionary, value reader) until error/EOF; a path that needs the page must end with an error satisfying errors.Is(err, ErrCorrupted), deliver no wrong row and not panic. Positions are enumerated per sampled file (quick: sampled bytes, thorough: more bytes x all 8 bits); files are sampled.",
+   note="Header bytes excluded (not checksummed by the format). Needs-the-page is decided from the offset index (pages start on row boundaries). Async read mode is covered by the scheduler engine, not here.",
+   ref="DESIGN.md §4 C13"),
+ "C14": dict(level="fault_enumeration", engine="E2 fault enumerator",
+   technique="deterministic simulation with I/O fault injection: fault-free trace recorded, then one injected sink/source fault or truncation per re-execution, enumerated over byte offsets / call indexes",
+   text="Four enumerations per seeded scenario: sink faults (byte offset x {err, torn, err-after-full, short-noerr} x {sticky, one-shot}), truncation (strict prefixes), source faults during open+read (ReadAt call index x {err, short+err, short+EOF} x cut position incl. page boundaries) and source faults during WriteRowGroup copy. Oracle: an error is returned, or nothing was lost (bytes identical / every row delivered); never a nil Close with missing bytes, never a clean EOF with missing or altered rows, never a panic.",
+   note="Exactly one fault per execution; after the first reported error the object is abandoned. (len(p), io.EOF) is only legal at the end of the source and is covered as a benign configuration, not as a fault.",
+   ref="DESIGN.md §4 C14"),
 }
 
 NOT_BUILT_YET = {}
